@@ -307,23 +307,37 @@ def chainMergeBlock (mk : List (Op K D) → Op K D) (l : List (Op K D)) : List (
           | v1, v2 => if isIdentity S v1 then v2 else if isIdentity S v2 then v1 else mk [v1, v2]) :: accs
     | acc, op => op :: acc) []).reverse
 
-def chainSimplifyCore (mk : List (Op K D) → Op K D) (ops : List (Op K D)) : List (Op K D) :=
-  -- unpack nested chains
-  let ops1 := ops.flatMap (fun o => match o with | .chain l => l | o => [o])
-  -- a NullOperator anywhere: the whole chain is a NullOperator
-  let ops2 := if ops1.any isNull then
-      [Op.null (match ops1.getLast? with | some o => dom o | none => 0) (match ops1.head? with | some o => tgt o | none => 0)]
-    else ops1
-  -- collect the real scalings
-  let fct := ops2.foldl (fun f o => match o with
-      | .scaling _ c _ => if S.kIsReal c then S.kmul f (S.kre c) else f
-      | _ => f) S.kone
+/-- nested chains unpacked (`opsnew += op._ops if isinstance(op, ChainOperator) else [op]`) -/
+def chainFlatten (ops : List (Op K D)) : List (Op K D) :=
+  ops.flatMap (fun o => match o with | .chain l => l | o => [o])
+
+/-- a NullOperator anywhere: the whole chain is a NullOperator -/
+def chainNullCollapse (ops1 : List (Op K D)) : List (Op K D) :=
+  if ops1.any isNull then
+    [Op.null (match ops1.getLast? with | some o => dom o | none => 0) (match ops1.head? with | some o => tgt o | none => 0)]
+  else ops1
+
+/-- `ops[-1].domain` -/
+def lastDom (l : List (Op K D)) : Nat := match l.getLast? with | some o => dom o | none => 0
+
+/-- one step of `fct *= op._factor.real` over the real ScalingOperators of a chain -/
+def chainCollectStep (f : K) (o : Op K D) : K :=
+  match o with
+  | .scaling _ c _ => if S.kIsReal c then S.kmul f (S.kre c) else f
+  | _ => f
+
+/-- the rest of ChainOperator.simplify: collect the real scalings, absorb, merge diagonals and block-diagonals -/
+def chainPost (mk : List (Op K D) → Op K D) (ops2 : List (Op K D)) : List (Op K D) :=
+  let fct := ops2.foldl (chainCollectStep S) S.kone
   let opsnew := ops2.filter (fun o => !isRealScaling S o)
-  let lastdom := match ops2.getLast? with | some o => dom o | none => 0
+  let lastdom := lastDom ops2
   let r := if !S.keq fct S.kone then chainAbsorb S fct opsnew else (opsnew, fct)
   let ops3 := if !S.keq r.2 S.kone || r.1.isEmpty then r.1 ++ [Op.scaling lastdom r.2 0] else r.1
   let ops4 := chainMergeDiag S ops3
   chainMergeBlock S mk ops4
+
+def chainSimplifyCore (mk : List (Op K D) → Op K D) (ops : List (Op K D)) : List (Op K D) :=
+  chainPost S mk (chainNullCollapse (chainFlatten ops))
 
 /-- ChainOperator.simplify (after the domain check) -/
 def chainSimplify (mk : List (Op K D) → Op K D) (ops : List (Op K D)) : List (Op K D) :=
